@@ -5252,7 +5252,7 @@ func (t *Terminal) Loop() error {
 			if offsetRange := numLines - headerLines; t.activePreviewOpts.cycle && offsetRange > 0 {
 				newOffset = ((newOffset-headerLines)+offsetRange)%offsetRange + headerLines
 			}
-			newOffset = util.Constrain(newOffset, headerLines, numLines-1)
+			newOffset = util.Constrain(newOffset, headerLines, util.Max(headerLines, numLines-1))
 			if t.previewer.offset != newOffset {
 				t.previewer.offset = newOffset
 				t.previewer.following.Set(t.previewer.offset >= numLines-(t.pwindow.Height()-headerLines))
